@@ -724,8 +724,6 @@ def oracle(case, obs):
     old, new = op[1], op[2]
     kb, lb, pb, sb, cb_, vb, rb, keyb = b
     ka, la, pa, sa, ca, va, ra, keya = a
-    if sorted(keya) != sorted(la[k] for k in ka):
-        return f"children-keys: the children are held under {keya} but are labelled {[la[k] for k in ka]}"
     if la[new] != lb[old]:
         return f"inherit-label: the replacement is labelled {la[new]}, the old node was {lb[old]}"
     if pa[new] != 0 or new not in ka:
@@ -734,6 +732,9 @@ def oracle(case, obs):
         return "inherit-parent: the replaced node is still owned"
     if sorted(ka) != sorted([k for k in kb if k != old] + [new]):
         return f"children: {kb} -> {ka}"
+    labelled = [la[k] if 0 <= k < len(la) else None for k in ka]       # (an unknown child has no label here)
+    if sorted(keya) != sorted(x for x in labelled if x is not None) or None in labelled:
+        return f"children-keys: the children are held under {keya} but are labelled {labelled}"
     if (old in sb) != (new in sa) or old in sa:
         return f"inherit-start: starting nodes {sb} -> {sa}"
     if [n for n in sa if n != new] != [n for n in sb if n != old]:
@@ -753,7 +754,7 @@ def oracle(case, obs):
         if st[c][0] == 0 and r in sub:                     # macro input -> input of the old node
             if sub[r] is None or ra[didx[c]] != sub[r]:
                 return f"inherit-link: macro channel {c} was linked to channel {r} of the old node, now to {ra[didx[c]]}"
-        elif st[c][0] == old and r != -1 and st[r][0] == 0:   # output of the old node -> macro output
+        elif st[c][0] == old and 0 <= r < len(st) and st[r][0] == 0:   # output of the old node -> macro output
             if sub[c] is None or ra[didx[sub[c]]] != r:
                 return f"inherit-link: channel {c} of the old node fed macro channel {r}; the replacement does not"
         elif st[c][0] not in (old, new) and ra[didx[c]] != r:
